@@ -320,7 +320,10 @@ def check_percolation(path, max_nodes, label, free_inputs=False):
         from biobalm.petri_net_translation import network_to_petrinet
         bn0 = ba.BooleanNetwork.from_bnet(text).infer_valid_graph()
         sd = types.SimpleNamespace(network=bn0, symbolic=ba.AsynchronousGraph(bn0))
-        pn0 = network_to_petrinet(bn0)
+        try:
+            pn0 = network_to_petrinet(bn0)
+        except Exception as e:
+            return 0, 0, [f"{label}: network_to_petrinet raised {type(e).__name__} on a network with free inputs: {str(e)[:100]}"]
         if any(d.get("kind") == "transition" and d.get("change") in inputs for _, d in pn0.nodes(data=True)):
             fails.append(f"{label}: the Petri net has a transition that changes a free input")
     else:
@@ -344,7 +347,11 @@ def check_percolation(path, max_nodes, label, free_inputs=False):
         spaces = [sd.node_data(i)["space"] for i in sd.node_ids()][:max_nodes] + [{}]
     for S in spaces:
         for rc in (True, False):
-            bn = percolate_network(sd.network, S, sd.symbolic, remove_constants=rc)
+            try:
+                bn = percolate_network(sd.network, S, sd.symbolic, remove_constants=rc)
+            except Exception as e:
+                fails.append(f"{label}: percolate_network raised {type(e).__name__} for the space {dict(list(S.items())[:4])}: {str(e)[:100]}")
+                continue
             Sp = percolate_space(sd.symbolic, S)
             s = z3.Solver()
             s.set("timeout", 60000)
